@@ -743,6 +743,42 @@ def section_sequence(env, ctx, model):
             ctx.count("sequence:same-function-object")
 
 
+KNOWN_INT = "minimize-integer-start"
+
+
+def section_start_dtypes(env, ctx, model):
+    """which dtypes of x0 are taken: the model (`DT.isInexact`) says floating and complex; an integer / boolean start must be
+    rejected (TypeError) - kept as the dtype of the optimization variable it truncates every trial point"""
+    jnp = env.jnp
+    t = jnp.array([0.375, 1.625, 2.5, -0.75])
+    f = lambda z: jnp.sum((z - t) ** 2)  # noqa: E731
+    for dt in ("float32", "float64", "complex64", "complex128", "int32", "int64", "bool"):
+        acc = model.call("dtype", dtype=dt)["accepted"]
+        for method in ("Nelder-Mead", "L-BFGS-B", "Powell"):
+            for isblk in (False, True):
+                x0 = jnp.zeros(4, dtype=dt)
+                x0 = env.BlockArray([x0[:1], x0[1:]]) if isblk else x0
+                fun = (lambda z: f(jnp.concatenate([jnp.real(b) for b in z.arrays]))) if isblk else (lambda z: f(jnp.real(z)))
+                with warnings.catch_warnings():
+                    warnings.simplefilter("ignore")
+                    try:
+                        r = ("ok", env.solver.minimize(fun, x0, method=method))
+                    except Exception as e:  # noqa: BLE001
+                        r = ("err", common.err_kind(e))
+                ctx.case({"section": "start-dtype", "dtype": dt, "method": method, "block": isblk}, ("start-dtype", dt, method, isblk))
+                ctx.count(f"start-dtype:{dt}:{'accepted' if r[0] == 'ok' else 'rejected:' + r[1]}")
+                good = (r[0] == "ok") if acc else (r == ("err", "type"))
+                if not good:
+                    xr = None
+                    if r[0] == "ok":
+                        xr = np.concatenate([np.asarray(b).ravel() for b in (r[1].x.arrays if isblk else [r[1].x])]).tolist()
+                    fail = {"call": f"solver.minimize(sum((z - t)**2), zeros(4, dtype={dt}){' as a block array' if isblk else ''}, method={method!r})", "t": [0.375, 1.625, 2.5, -0.75],
+                            "scico": {"x": xr, "fun": float(r[1].fun), "success": bool(r[1].success)} if r[0] == "ok" else {"err": r[1]},
+                            "expected": "the minimiser t (scipy on the flattened real problem), or a TypeError for a dtype that cannot hold it"}
+                    ctx.disagree("wrap.start-dtype", {"section": "start-dtype", "dtype": dt, "method": method, "block": isblk}, fail["scico"], "TypeError" if not acc else "accepted",
+                                 oracle=lambda c, fail=fail: fail, known_id=KNOWN_INT if not acc else None)
+
+
 def section_jit(env, ctx, model):
     """`minimize` is written with `jax.pure_callback` so that it can be traced: under `jax.jit` (and `vmap` over starts)
     the returned container is the eager one (container kind, shape, dtype, values)"""
@@ -763,6 +799,20 @@ def section_jit(env, ctx, model):
                     jitted = ("ok", jax.jit(lambda z: env.solver.minimize(func, z, method=method).x)(x0))
                 except Exception as e:  # noqa: BLE001
                     jitted = ("err", common.err_kind(e))
+                # characterisation: while tracing only `x` exists (the other fields are written by the host callback when the
+                # compiled program runs), so `res.fun` cannot be returned from a jitted function
+                seen = {}
+
+                def probe(z):
+                    res = env.solver.minimize(func, z, method=method)
+                    seen["fields"] = sorted(k for k in res.keys())
+                    return res.x
+
+                try:
+                    jax.jit(probe)(x0)
+                except Exception:  # noqa: BLE001
+                    pass
+                ctx.count(f"jit:fields-while-tracing={seen.get('fields')}")
             ctx.case({"section": "jit", "form": form_tag(form), "method": method}, ("jit", form_tag(form), method))
             ctx.count(f"jit:{'blk' if form['isblk'] else 'arr'}/{form['dtype']}")
             good = eager[0] == jitted[0] and (eager[0] == "err" or same_container(env, eager[1], jitted[1]))
@@ -865,7 +915,7 @@ def correspond(ctx, model):
 
     env = Env()
     timing = {}
-    for sec in (run_corpus, section_helpers, section_helpers_boundary, section_scalar, section_jit, section_sequence, section_minimize):
+    for sec in (run_corpus, section_helpers, section_helpers_boundary, section_start_dtypes, section_scalar, section_jit, section_sequence, section_minimize):
         t0 = time.time()
         try:
             sec(env, ctx, model)
@@ -892,6 +942,18 @@ def correspond(ctx, model):
 
 
 def findings(ctx, model):
+    if ctx.is_known(KNOWN_INT):
+        env = Env()
+        jnp = env.jnp
+        t = jnp.array([0.375, 1.625, 2.5, -0.75])
+        try:
+            with warnings.catch_warnings():
+                warnings.simplefilter("ignore")
+                r = env.solver.minimize(lambda z: jnp.sum((z - t) ** 2), jnp.zeros(4, dtype=jnp.int64), method="Nelder-Mead")
+            still = not np.allclose(np.asarray(r.x, dtype=float), np.asarray(t), atol=1e-3)
+        except TypeError:
+            still = False
+        ctx.known_finding(KNOWN_INT, still)
     if ctx.is_known(KNOWN_F32):
         env = Env()
         jnp = env.jnp
